@@ -6,9 +6,9 @@
     of the in_polygon tolerance guard come from Gen/GenGeom.v, regenerated from the source on
     every run.  "contains" below always means the model's own [contains_point]
     (= [in_polygon], the crossing count with the half-open rule). *)
-From Coq Require Import List Bool Arith ZArith PArith QArith Qabs Sorted Permutation.
+From Coq Require Import List Bool Arith ZArith PArith QArith Qabs Qreduction Sorted Permutation.
 From Gen Require Import GenGeom.
-From P Require Import Locate LocBasics LocSearch LocPolygon LocBlock LocTrack LocRefuted LocMain.
+From P Require Import Locate LocBasics LocSearch LocPolygon LocConvex LocBlock LocTrack LocRefuted LineModel LocRect LocLine LocMain.
 Import ListNotations.
 Open Scope Q_scope.
 
@@ -52,14 +52,31 @@ Theorem in_polygon_in_bounding_box : forall pos poly,
   in_polygon pos poly = true -> in_rectangle pos (bounds_of_points poly) = true.
 Proof. exact in_polygon_in_bounds. Qed.
 Print Assumptions in_polygon_in_bounding_box.
-(** DESIGN's [in_polygon_convex], proved for the columns of rectangular geometries only:
-    with PyTOUGH's vertex order the crossing count is the half-open box test *)
-Theorem in_polygon_convex_partial : forall x0 y0 x1 y1 pos,
+(** the crossing-number test is correct for every strictly convex counter-clockwise polygon
+    (every three vertices in list order make a left turn), any number of vertices: for a point
+    off the supporting lines of the edges it answers true exactly for the points strictly to
+    the left of every edge *)
+Theorem in_polygon_convex : forall l pos,
+  (3 <= length l)%nat -> convex_ccw l -> off_edge_lines l pos ->
+  (in_polygon pos l = true <-> strictly_inside l pos).
+Proof. exact in_polygon_convex_l. Qed.
+Print Assumptions in_polygon_convex.
+Example in_polygon_convex_ex :
+  (3 <= length ex_hexagon)%nat /\ convex_ccw ex_hexagon /\ off_edge_lines ex_hexagon (2, 2) /\
+  in_polygon (2, 2) ex_hexagon = true.
+Proof. exact ex_hexagon_convex. Qed.
+(** the columns of rectangular geometries (PyTOUGH's vertex order) are such polygons ... *)
+Theorem rectangle_is_convex_ccw : forall x0 y0 x1 y1,
+  x0 < x1 -> y0 < y1 -> convex_ccw [(x1, y0); (x1, y1); (x0, y1); (x0, y0)].
+Proof. exact rectangle_convex. Qed.
+Print Assumptions rectangle_is_convex_ccw.
+(** ... for which the test is known on the edges too: it is the half-open box test *)
+Theorem in_polygon_rectangle_spec : forall x0 y0 x1 y1 pos,
   x0 < x1 -> y0 < y1 ->
   in_polygon pos [(x1, y0); (x1, y1); (x0, y1); (x0, y0)] =
   (qle x0 (px pos) && qlt (px pos) x1) && (qle y0 (py pos) && qlt (py pos) y1).
 Proof. exact in_polygon_rectangle. Qed.
-Print Assumptions in_polygon_convex_partial.
+Print Assumptions in_polygon_rectangle_spec.
 Theorem rectangular_columns_tile : forall xa0 ya0 xa1 ya1 xb0 yb0 xb1 yb1 pos,
   xa0 < xa1 -> ya0 < ya1 -> xb0 < xb1 -> yb0 < yb1 ->
   (xa1 <= xb0 \/ xb1 <= xa0 \/ ya1 <= yb0 \/ yb1 <= ya0) ->
@@ -135,9 +152,21 @@ Theorem quadtree_search_returns_tree_element : forall (polygon : colfun (list pt
   search polygon nbrs bbox (build centre fuel b es) pos = Some e -> In e es.
 Proof. exact search_in_elements. Qed.
 Print Assumptions quadtree_search_returns_tree_element.
+(** with the fallback of the repaired quadtree.search (proposed fix C12-quadtree-search-fallback;
+    [quadtree_search_has_fallback] is read from the source) no connectivity is needed *)
+Theorem search_complete_with_fallback : forall (polygon : colfun (list pt)) (nbrs : colfun (list positive))
+    (bbox : colfun rect) t pos T,
+  quadtree_search_has_fallback = true ->
+  in_rectangle pos (qbounds t) = true ->
+  In T (qelements t) -> near_point bbox T pos = true -> contains_point polygon T pos = true ->
+  exists e, search polygon nbrs bbox t pos = Some e /\ contains_point polygon e pos = true.
+Proof. exact (fun polygon nbrs bbox => search_complete_fallback polygon (fun _ => (0, 0)) nbrs bbox). Qed.
+Print Assumptions search_complete_with_fallback.
 (** agreement of the search aids, under the explicit hypotheses [tiling] (at most one column
     contains the point) and [connected_near] (the containing column is reachable from the
-    elements of the quadtree leaf through neighbours whose bounding boxes meet the leaf), and
+    elements of the quadtree leaf through neighbours whose bounding boxes meet the leaf;
+    [qtree_finds] = [connected_near], or, once quadtree.search has its fallback, just "the column
+    is an element of the tree and the point lies in the tree's rectangle"), and
     the premises of the aids themselves (the bounds contain the point, the column subset
     contains the answer): every combination returns the column plain search returns *)
 Theorem search_aids_agree : forall (polygon : colfun (list pt)) (centre : colfun pt) (nbrs : colfun (list positive))
@@ -148,7 +177,7 @@ Theorem search_aids_agree : forall (polygon : colfun (list pt)) (centre : colfun
   In T columnlist -> contains_point polygon T pos = true ->
   inbounds pos bounds = true ->
   In T (match columns with None => columnlist | Some cs => cs end) ->
-  (forall t, qt = Some t -> connected_near nbrs bbox t pos T) ->
+  (forall t, qt = Some t -> qtree_finds nbrs bbox t pos T) ->
   column_containing_point polygon centre nbrs bbox columnlist pos columns guess bounds qt = Some T /\
   column_containing_point polygon centre nbrs bbox columnlist pos None None None None = Some T.
 Proof. exact aids_agree. Qed.
@@ -159,9 +188,11 @@ Example search_aids_agree_ex :
   (forall c, m_bbox c = bounds_of_points (m_polygon c)) /\
   connected_near m_nbrs m_bbox m_tree (60, 140) 4%positive.
 Proof. exact m_example_hyps. Qed.
-(** without [connected_near] the agreement fails for the quadtree (known finding
-    quadtree.search:container-unreachable-from-leaf): the M-grid, point (260, 118) *)
+(** without [connected_near] the agreement fails for the quadtree of the pinned code, which has
+    no fallback (known finding quadtree.search:container-unreachable-from-leaf): the M-grid,
+    point (260, 118) *)
 Theorem qtree_incomplete_refuted :
+  quadtree_search_has_fallback = false ->
   exists (polygon : colfun (list pt)) (centre : colfun pt) (nbrs : colfun (list positive)) (bbox : colfun rect)
          columnlist fuel bounds pos T,
     let t := build centre fuel bounds columnlist in
@@ -221,7 +252,7 @@ Theorem block_containing_is_reported : forall (polygon : colfun (list pt)) (cent
   (1 <= li)%nat ->
   block_contains_point polygon surface columnlist layerlist li col pos z = true ->
   near_point bbox col pos = true ->
-  (forall t, qt = Some t -> connected_near nbrs bbox t pos col) ->
+  (forall t, qt = Some t -> qtree_finds nbrs bbox t pos col) ->
   block_containing_point polygon centre nbrs bbox surface columnlist layerlist pos z qt = Some (li, col).
 Proof. exact bcp_complete. Qed.
 Print Assumptions block_containing_is_reported.
@@ -301,3 +332,95 @@ Theorem track_gaps_bounded : forall (tdist : pt -> Q) l B,
   sum_gaps tdist l <= inject_Z (Z.of_nat (length (gap_list tdist l))) * B.
 Proof. exact sum_gaps_bound. Qed.
 Print Assumptions track_gaps_bounded.
+
+(** ** the line primitives (LineModel.v: exact model of line_polygon_intersections up to its
+    de-duplication, and of line_intersects_rectangle) and convex columns *)
+(** every point line_polygon_intersections can return lies on the line and on an edge of the
+    polygon, both within the tolerance 1e-9 (in parameter) of the segment *)
+Theorem intersections_on_line_and_edge : forall poly l1 l2 p,
+  In p (lpi_points poly l1 l2) ->
+  exists h a b, In (a, b) (edges poly) /\ p = h_pt h /\
+    in_unit (h_xi0 h) = true /\ in_unit (h_xi1 h) = true /\
+    pt_eq p (lpoint a b (h_xi0 h)) /\ pt_eq p (lpoint l1 l2 (h_xi1 h)).
+Proof. exact lpi_points_on_line. Qed.
+Print Assumptions intersections_on_line_and_edge.
+(** ordered along the line *)
+Theorem intersections_sorted_along_line : forall poly l1 l2,
+  Sorted (fun a b => h_xi1 a <= h_xi1 b) (lpi_sorted poly l1 l2).
+Proof. exact lpi_sorted_sorted. Qed.
+Print Assumptions intersections_sorted_along_line.
+(** and none is missed: a common point of an edge and of the line (not parallel) is a hit *)
+Theorem intersections_complete : forall l1 l2 p1 p2 s t,
+  ~ ldet l1 l2 p1 p2 == 0 -> pt_eq (lpoint p1 p2 s) (lpoint l1 l2 t) ->
+  in_unit s = true -> in_unit t = true ->
+  exists h, lpi_edge l1 l2 p1 p2 = Some h /\ h_xi0 h == s /\ h_xi1 h == t.
+Proof. exact lpi_edge_complete. Qed.
+Print Assumptions intersections_complete.
+(** the bounding-box test of column_track (Cohen-Sutherland) never rejects a line that has a point in the box *)
+Theorem line_intersects_rectangle_complete : forall r l1 l2 p t,
+  In_rect p r -> 0 <= t -> t <= 1 ->
+  px p == px l1 + t * (px l2 - px l1) -> py p == py l1 + t * (py l2 - py l1) ->
+  line_intersects_rectangle r l1 l2 = true.
+Proof. exact lir_complete. Qed.
+Print Assumptions line_intersects_rectangle_complete.
+(** the chord of a convex column: X = line(tx) on edge (a1,b1), Y = line(ty) on edge (a2,b2), tx < ty;
+    between them the line is in the closed column ... *)
+Theorem convex_chord_inside : forall l l1 l2, convex_ccw l ->
+  forall a1 b1 a2 b2 s1 s2 tx ty,
+  In (a1, b1) (edges l) -> In (a2, b2) (edges l) -> 0 <= s1 <= 1 -> 0 <= s2 <= 1 ->
+  pt_eq (lpoint l1 l2 tx) (lpoint a1 b1 s1) -> pt_eq (lpoint l1 l2 ty) (lpoint a2 b2 s2) -> tx < ty ->
+  forall t, tx <= t -> t <= ty -> closed_inside l (lpoint l1 l2 t).
+Proof. exact chord_between_closed. Qed.
+Print Assumptions convex_chord_inside.
+(** ... strictly inside unless the line runs along an edge ... *)
+Theorem convex_chord_strictly_inside : forall l l1 l2, convex_ccw l ->
+  forall a1 b1 a2 b2 s1 s2 tx ty,
+  In (a1, b1) (edges l) -> In (a2, b2) (edges l) -> 0 <= s1 <= 1 -> 0 <= s2 <= 1 ->
+  pt_eq (lpoint l1 l2 tx) (lpoint a1 b1 s1) -> pt_eq (lpoint l1 l2 ty) (lpoint a2 b2 s2) ->
+  forall t, tx < t -> t < ty ->
+  (forall u w, In (u, w) (edges l) -> ~ (orient u w (lpoint l1 l2 tx) == 0 /\ orient u w (lpoint l1 l2 ty) == 0)) ->
+  strictly_inside l (lpoint l1 l2 t).
+Proof. exact chord_between_strict. Qed.
+Print Assumptions convex_chord_strictly_inside.
+(** ... and before the entry point / after the exit point the line is outside the column *)
+Theorem convex_chord_outside_before : forall l l1 l2, convex_ccw l ->
+  forall a1 b1 a2 b2 s1 s2 tx ty,
+  In (a1, b1) (edges l) -> In (a2, b2) (edges l) -> 0 <= s2 <= 1 ->
+  pt_eq (lpoint l1 l2 tx) (lpoint a1 b1 s1) -> pt_eq (lpoint l1 l2 ty) (lpoint a2 b2 s2) ->
+  ~ ldet l1 l2 a1 b1 == 0 -> tx < ty -> forall t, t < tx -> orient a1 b1 (lpoint l1 l2 t) < 0.
+Proof. exact chord_before_outside. Qed.
+Print Assumptions convex_chord_outside_before.
+Theorem convex_chord_outside_after : forall l l1 l2, convex_ccw l ->
+  forall a1 b1 a2 b2 s1 s2 tx ty,
+  In (a1, b1) (edges l) -> In (a2, b2) (edges l) -> 0 <= s1 <= 1 ->
+  pt_eq (lpoint l1 l2 tx) (lpoint a1 b1 s1) -> pt_eq (lpoint l1 l2 ty) (lpoint a2 b2 s2) ->
+  ~ ldet l1 l2 a2 b2 == 0 -> tx < ty -> forall t, ty < t -> orient a2 b2 (lpoint l1 l2 t) < 0.
+Proof. exact chord_after_outside. Qed.
+Print Assumptions convex_chord_outside_after.
+(** a column the line really crosses is never skipped: it passes the bounding-box test and has a hit,
+    on an edge of the column, between a point strictly inside and a point not in the closed column *)
+Theorem crossed_convex_column_not_skipped : forall l l1 l2 t0 t1,
+  (3 <= length l)%nat -> convex_ccw l -> 0 <= t0 -> t0 < t1 -> t1 <= 1 ->
+  strictly_inside l (lpoint l1 l2 t0) -> ~ closed_inside l (lpoint l1 l2 t1) ->
+  line_intersects_rectangle (bounds_of_points l) l1 l2 = true /\
+  exists h, In h (lpi_hits l l1 l2) /\ t0 < h_xi1 h /\ h_xi1 h < t1 /\ 0 <= h_xi0 h /\ h_xi0 h <= 1 /\
+            closed_inside l (h_pt h).
+Proof. exact crossed_column_has_hit. Qed.
+Print Assumptions crossed_convex_column_not_skipped.
+Example crossed_convex_column_not_skipped_ex :
+  strictly_inside ex_hexagon (lpoint (-1, 2) (5, 2) (1 # 2)) /\ ~ closed_inside ex_hexagon (lpoint (-1, 2) (5, 2) 1) /\
+  map (fun p => (Qred (px p), Qred (py p))) (lpi_points ex_hexagon (-1, 2) (5, 2)) = [(0, 2); (4, 2)] /\
+  line_intersects_rectangle (bounds_of_points ex_hexagon) (-1, 2) (5, 2) = true.
+Proof. exact ex_crossed. Qed.
+(** column_track with these primitives plugged in: every listed segment belongs to a column whose
+    bounding box the line meets, and its entry and exit points are end points of the line or hits
+    of the line with an edge of that column *)
+Theorem track_points_are_intersections : forall (polygon : colfun (list pt)) (tdist : pt -> Q) (maxside : colfun Q)
+    l1 l2 cols s,
+  In s (track_model polygon tdist maxside l1 l2 cols) ->
+  In (seg_col s) cols /\
+  line_intersects_rectangle (bounds_of_points (polygon (seg_col s))) l1 l2 = true /\
+  on_line_and_column (polygon (seg_col s)) l1 l2 (seg_in s) /\
+  on_line_and_column (polygon (seg_col s)) l1 l2 (seg_out s).
+Proof. exact track_model_points. Qed.
+Print Assumptions track_points_are_intersections.
